@@ -231,6 +231,29 @@ def negFix (a : Int) : Int := wrap64 (-a)
 def quoFix (a b : Int) : Int := wrap64 (Int.tdiv a b)
 def remFix (a b : Int) : Int := Int.tmod a b
 
+/-- Go's `x << k` on int64 (any count: counts ≥ 64 give 0, which is `wrap64` of a multiple of 2^64) -/
+def shlFix (a k : Int) : Int := wrap64 (a * 2 ^ k.toNat)
+/-- Go's arithmetic `x >> k` on int64 (counts ≥ 64 leave only the sign: 0 or -1) -/
+def shrFix (a k : Int) : Int := a >>> k.toNat
+
+/-- `uint64(x)` of an int64: the residue modulo 2^64 -/
+def toU64 (a : Int) : Int := a % 18446744073709551616
+/-- `int64(u)` of a uint64 -/
+def ofU64 (u : Int) : Int := wrap64 u
+/-- `^u` on uint64 -/
+def notU (u : Int) : Int := 18446744073709551615 - u
+def andU (a b : Int) : Int := ((a.toNat &&& b.toNat : Nat) : Int)
+def orU (a b : Int) : Int := ((a.toNat ||| b.toNat : Nat) : Int)
+def xorU (a b : Int) : Int := ((a.toNat ^^^ b.toNat : Nat) : Int)
+def shlU (a k : Int) : Int := (a * 2 ^ k.toNat) % 18446744073709551616
+def shrU (a k : Int) : Int := a / 2 ^ k.toNat
+
+/-- `canonicalNumber` on an exact integer result: a bignum object that fits becomes a fixnum -/
+def canonNumber : Rep → Rep
+  | .big i => canonInt i
+  | .ratio r => canonRat r
+  | x => x
+
 /-- `addFixnums` (pkg/cl/number.go): `sum := x + y; overflow iff (x < sum) != (0 < y)` -/
 def addOk (a b : Int) : Bool := decide (a < addFix a b) == decide (0 < b)
 def addFixnums (a b : Int) : Rep := if addOk a b then .fix (addFix a b) else .big (a + b)
